@@ -959,9 +959,11 @@ class FuncEmitter:
                             allocs[x[2][1]].add(et)
         self.alloc_hint = {k: next(iter(v)) for k, v in allocs.items() if len(v) == 1}
         self.defs = {}
+        self.alloca_names = set()
         for b, pl in parsed.items():
             for x in pl:
                 if x[0] in ('load', 'gep', 'cast', 'phi', 'select') and x[1] is not None: self.defs[x[1]] = x
+                if x[0] == 'alloca': self.alloca_names.add(x[1])
         self.castdef = {}
         for b, pl in parsed.items():
             for x in pl:
@@ -1178,10 +1180,12 @@ class FuncEmitter:
             return '%s = (uint8_t)%s;' % (self.lname(res), e)
         if k == 'load':
             _, res, t, pt, pv = x; self.decl(res, t)
-            return '%s = *%s;' % (self.lname(res), V(pt, pv))
+            acc = self.race_acc(pt, pv, t, 0)
+            return acc + ['%s = *%s;' % (self.lname(res), V(pt, pv))]
         if k == 'store':
             _, t, v, pt, pv = x
-            return '*%s = %s;' % (V(pt, pv), V(t, v))
+            acc = self.race_acc(pt, pv, t, 1)
+            return acc + ['*%s = %s;' % (V(pt, pv), V(t, v))]
         if k == 'gep':
             _, res, bt, pt, pv, idx = x
             e, rt = em.gep(bt, pt, V(pt, pv), [(it, V(it, iv)) for it, iv in idx])
@@ -1246,6 +1250,25 @@ class FuncEmitter:
             return ['%s.f0 = *%s; %s.f1 = (%s.f0 == %s); if (%s.f1) *%s = %s;' % (r, P_, r, r, V(t, c), r, P_, V(t, n))]
         if k == 'call': return self.gen_call(x)
         raise NotImplementedError(k)
+
+    def race_acc(self, pt, pv, t, w):
+        """C11 instrumentation (ir2c --race-instrument): report the access to the lockset monitor unless the address is
+        derived from one of this function's own stack objects"""
+        em = self.em
+        if not getattr(em, 'race_instrument', False): return []
+        v = pv; hops = 0
+        while v[0] == 'local' and hops < 12:
+            d = self.defs.get(v[1]) if hasattr(self, 'defs') else None
+            if d is None: break
+            if d[0] == 'gep': v = d[4]
+            elif d[0] == 'cast': v = d[4]
+            else: break
+            hops += 1
+        if v[0] == 'local' and v[1] in getattr(self, 'alloca_names', ()): return []
+        if v[0] == 'global':
+            g = em.m.globals.get(em.unalias(v[1]))
+            if g is not None and g.get('const'): return []          # vtables, string literals
+        return ['verif_acc((uint8_t*)%s, sizeof(%s), %d);' % (em.val(pt, pv, self), em.cty(t), w)]
 
     def gen_ret(self, x):
         if x[1] is None: return 'return;'
@@ -1529,6 +1552,7 @@ def main():
     ap.add_argument('--stub', action='append', default=[], help='treat as external even if defined')
     ap.add_argument('--stubfile')
     ap.add_argument('--report')
+    ap.add_argument('--race-instrument', action='store_true', help='E2/C11: report loads/stores to the lockset monitor');
     ap.add_argument('--e2-main'); ap.add_argument('--e2-setup', help='plain function run once before scheduling starts'); ap.add_argument('--e2-thread-entry', help='regex of the thread body function (std::thread::_State_impl<...>::_M_run)')
     ap.add_argument('--blocking', action='append', default=[], help='E2: blocking primitive (step function in rt/e2_rt.h)')
     ap.add_argument('--defined', help='file with names of functions the environment model defines; other externals become traps')
@@ -1540,6 +1564,8 @@ def main():
     em = Emitter(mod, stubs)
     if a.defined:
         em.defined = set(l.strip() for l in open(a.defined) if l.strip())
+    em.race_instrument = bool(a.race_instrument)
+    if a.race_instrument: em.ext_funcs['verif_acc'] = (('void',), [('ptr', ('int', 8)), ('int', 64), ('int', 32)], False)
     if a.blocking:
         em.blocking = set(a.blocking)
         em.compute_mayblock()
